@@ -126,6 +126,10 @@ static void viol(const std::string &sig, const std::string &text) {
   long &n = g_viol[sig]; n++; g_viol_total++;
   if (n <= 3) printf("@VIOL sig=%s :: %s\n", sig.c_str(), text.c_str());
 }
+static bool viol_counted(const std::string &sig) {      // count only (the replay text is expensive to build): true if the text is not needed
+  auto it = g_viol.find(sig); if (it == g_viol.end() || it->second < 3) return false;
+  it->second++; g_viol_total++; return true;
+}
 static std::string exc_sig(const std::string &exc) {      // "stoi-on-content-length(invalid_argument)" -> parser-throws-stoi-on-content-length
   return "parser-throws-" + exc.substr(0, exc.find('('));
 }
@@ -190,6 +194,7 @@ static void check_split(const Stream &st, const Outcome &whole, const std::strin
   std::string sig;
   if (o.fail && !whole.fail) sig = in_method ? "parser-split-inside-method-token-fails" : "parser-split-fails-cut-" + zones;
   else sig = "parser-split-changes-request-sequence-cut-" + zones;
+  if (viol_counted(sig)) return;
   viol(sig, case_text(st.data, cuts, ncuts) + " zones=" + zones + " => split: " + o.str() + " ;; unsplit: " + wholes);
 }
 
@@ -234,7 +239,6 @@ static int run_split(long shard, long nshards, int level, double deadline) {
   else {
     for (long a = 0; a < n; a++) for (int b : B) { if (late()) break; if (mine()) sweep_stream(make_stream(g, {(int)a, b}), 2, true); }
     for (int a : B) for (long b = 0; b < n; b++) { if (late()) break; if (mine()) sweep_stream(make_stream(g, {a, (int)b}), 2, true); }
-    for (int a : A) for (int b : A) { if (late()) break; if (mine()) sweep_stream(make_stream(g, {a, b}), 2, true); }
   }
   // 3-request streams: C x C x C, every split with <=2 cuts
   for (int a : C) for (int b : C) for (int c : C) { if (late()) break; if (mine()) sweep_stream(make_stream(g, {a, b, c}), 2, level != 0); }
@@ -252,7 +256,7 @@ static void total_check(const char *mode, const std::string &data, const size_t 
   Outcome o = feed(data, cuts, ncuts);
   if (o.over) viol("parser-returns-more-than-given", std::string(mode) + " " + case_text(data, cuts, ncuts));
   if (o.noprogress) viol("parser-feed-loop-makes-no-progress", std::string(mode) + " " + case_text(data, cuts, ncuts));
-  if (!o.exc.empty()) { viol(exc_sig(o.exc), std::string(mode) + " " + case_text(data, cuts, ncuts) + " => " + o.str()); outcome("exception " + o.exc); }
+  if (!o.exc.empty()) { if (!viol_counted(exc_sig(o.exc))) viol(exc_sig(o.exc), std::string(mode) + " " + case_text(data, cuts, ncuts) + " => " + o.str()); outcome("exception " + o.exc); }
   else outcome(std::string(o.fail ? "parse-fail" : o.nreq ? "request(s)-delivered" : "waiting-for-more-bytes") + (o.nreq && o.fail ? " after a request" : ""));
 }
 
